@@ -67,6 +67,15 @@ func checkC06(w *World, tier string) *Report {
 		r.need("R4.3", 6)
 		r.Explanation += " R4.3 (shared with C04) the call/create instructions, which credit the caller with what the frame returned, are SSA clones of the reference."
 	}
+	// seventh batch: (a) the post-call join point is where the Aspects' gas is charged against what the callee left —
+	// a path that runs the callee with join points enabled and skips it (e.g. `&& gas > 0`) loses that charge and
+	// its out-of-gas; (b) the leftover gas a frame reports in the call tree is the number handed to ExitCall, stored
+	// on every recording path (C08 R8.3) — stored only for successful frames it is misreported for reverts
+	emitSiteRule(w, r, "R5.3")
+	emitReturnRule(w, r, "R5.3", func(fn string) bool { return fn == "(*EVM).Call" })
+	r.need("R5.3", 3)
+	addR83(w, r, "R8.3")
+	r.Explanation += " R5.3 (shared with C05) every path that runs the callee with join points enabled crosses the post-call join point, where the Aspects' gas is charged. R8.3 (shared with C08) the leftover gas handed to ExitCall is stored into the call-tree node on every recording path."
 	r.Assumptions = append(r.Assumptions, "the Aspect runtime reports a leftover gas not larger than the gas it was given", "package-level Err* variables are non-nil")
 	return r
 }
